@@ -131,10 +131,10 @@ fn record(args: &Args) {
     let work = std::env::current_dir().unwrap();
     let mut w = World::new(&work, kind);
     let mut rng = Rng(seed() ^ 0x5EED_C06);
-    let classes = [("ok", 8), ("guest", 2), ("needs", 2), ("badSig", 1), ("rejectFirst", 1), ("rejectLater", 2)];
+    let classes = [("ok", 12), ("guest", 2), ("needs", 3), ("badSig", 1), ("rejectFirst", 1), ("rejectLater", 2)];
     for gid in 0..n {
         let m = 4 + rng.below(mmax - 3);
-        let g0 = random_graph(&mut rng, m, &classes);
+        let g0 = random_graph(&mut rng, m, &classes, 14);
         let (oids0, rank) = w.materialise_free(&g0, gid as u64 + seed() * 104729);
         let g = relabel(&g0, &rank);
         let mut oids = vec![oids0[0]; m + 1];
@@ -253,6 +253,43 @@ fn identity(args: &Args) {
     out.finish();
 }
 
+/// A change commit without parent changes that is not the root of the object ("detached"): it is
+/// loaded when a reference points at it (or at a descendant), but `ChangeGraph::evaluate` only
+/// visits what descends from the root. What happens to it -- in particular when its signature is
+/// forged -- is recorded here.
+fn detached(args: &Args) {
+    let mut out = Out::create(Path::new(args.req("--out")));
+    let work = std::env::current_dir().unwrap();
+    let mut w = World::new(&work, Kind::Issue);
+    let root = w.root();
+    let (ok1, _) = w.actions("ok", 1, None);
+    let (ok2, _) = w.actions("ok", 2, None);
+    let (ok3, _) = w.actions("ok", 3, None);
+    let j = w.store(&[], 1, &ok1, 2, 1); // forged signature, no parents
+    let a = w.store(&[root], 1, &ok2, 0, 2); // valid change on the root
+    let c = w.store(&[a, j], 2, &ok3, 0, 3); // valid change on top of both
+    let oids = vec![root, j, a, c];
+    let labels = label_map(&oids);
+    let mut eval = |refs: &[(usize, Oid)]| -> Value {
+        w.present(refs);
+        match w.eval(&labels, false) {
+            Ok(Some(o)) => o.to_json(),
+            Ok(None) => json!({"error": "not found"}),
+            Err(e) => json!({"error": e}),
+        }
+    };
+    let with_j = eval(&[(0, a), (1, j)]);
+    let without_j = eval(&[(0, a)]);
+    let child_of_j = eval(&[(0, c)]);
+    let only_j = eval(&[(1, j)]);
+    let forged_in_history = with_j["hist"].as_array().map(|h| h.contains(&json!(1))).unwrap_or(false)
+        || child_of_j["hist"].as_array().map(|h| h.contains(&json!(1))).unwrap_or(false);
+    out.emit(&json!({"detached_probe": true, "labels": {"0": "root", "1": "J detached, forged signature", "2": "A valid", "3": "C valid child of A and J"},
+                     "refs_A_and_J": with_j, "refs_A": without_j, "refs_C": child_of_j, "refs_J_only": only_j,
+                     "forged_change_in_history": forged_in_history}));
+    out.finish();
+}
+
 fn main() {
     let args = Args::parse();
     quiet_panics();
@@ -273,6 +310,7 @@ fn main() {
         "shard" => shard(&args),
         "record" => record(&args),
         "identity" => identity(&args),
+        "detached" => detached(&args),
         m => fatal(&format!("unknown mode {m}")),
     }
 }
